@@ -26,14 +26,16 @@ type Env struct {
 	errs    *[]string
 	atPos   int // for local-name disambiguation (token.Pos of the loop)
 	depth   int
+	outer   map[string]Val // entry values of the enclosing function's parameters (closure contracts)
 }
 
 func (e *Env) fail(format string, a ...interface{}) Val {
 	msg := fmt.Sprintf(format, a...)
 	if e.errs != nil {
 		*e.errs = append(*e.errs, msg)
+	} else {
+		e.x.note("spec-error: %s", msg)
 	}
-	e.x.note("spec-error: %s", msg)
 	return Val{T: e.x.d.Fresh("specerr", "Bool"), Typ: types.Typ[types.Bool]}
 }
 
@@ -750,6 +752,37 @@ func (e *Env) evalCall(n SCall) Val {
 				return Val{T: IntLit(u.Len()), Typ: types.Typ[types.Int]}
 			}
 			return e.fail("len of %s", v.Typ)
+		case "hasPrefix", "hasSuffix", "contains", "trimPrefix", "trimSuffix", "indexOf":
+			if x.te.StrSort != "String" || len(n.Args) != 2 {
+				return e.fail("%s needs seq string mode and two arguments", id.Name)
+			}
+			a, b := e.eval(n.Args[0]), e.eval(n.Args[1])
+			switch id.Name {
+			case "hasPrefix":
+				return Val{T: mk("Bool", "str.prefixof", b.T, a.T), Typ: boolT}
+			case "hasSuffix":
+				return Val{T: mk("Bool", "str.suffixof", b.T, a.T), Typ: boolT}
+			case "contains":
+				return Val{T: mk("Bool", "str.contains", a.T, b.T), Typ: boolT}
+			case "indexOf":
+				return Val{T: Term{fmt.Sprintf("(str.indexof %s %s 0)", a.T.S, b.T.S), "Int"}, Typ: types.Typ[types.Int]}
+			case "trimPrefix":
+				return Val{T: Term{fmt.Sprintf("(ite (str.prefixof %s %s) (str.substr %s (str.len %s) (- (str.len %s) (str.len %s))) %s)", b.T.S, a.T.S, a.T.S, b.T.S, a.T.S, b.T.S, a.T.S), "String"}, Typ: a.Typ}
+			case "trimSuffix":
+				return Val{T: Term{fmt.Sprintf("(ite (str.suffixof %s %s) (str.substr %s 0 (- (str.len %s) (str.len %s))) %s)", b.T.S, a.T.S, a.T.S, a.T.S, b.T.S, a.T.S), "String"}, Typ: a.Typ}
+			}
+		case "outer":
+			// outer(p): the entry value of parameter p of the enclosing
+			// (outermost) function, in the contract of a closure
+			if id, ok := n.Args[0].(SIdent); ok {
+				if v, ok := e.outer[id.Name]; ok {
+					return v
+				}
+				if v, ok := x.outerGhost(e.st, id.Name); ok {
+					return v
+				}
+			}
+			return e.fail("outer(): no such parameter of the enclosing function: %s", exprString(n.Args[0]))
 		case "zero":
 			if id, ok := n.Args[0].(SIdent); ok {
 				if T := e.resolveType(id.Name); T != nil {
